@@ -227,6 +227,11 @@ class Prop(common.PropertyCheck):
             N, D = rng.randrange(1, 6), rng.randrange(2, 6)
             atoms = [({'t': 'name', 'v': 'ch%d' % c} if rng.random() < 0.5 else {'t': 'pos', 'v': c - (D if rng.random() < 0.3 else 0)}) for c in rng.sample(range(D), rng.randrange(1, D + 1))]
             yield {'N': N, 'D': D, 'keys': [[self.rand_row(N), {'t': 'list', 'v': atoms, 'oneshot': ['gen', 'iter', 'reversed', 'map'][i % 4]}]], 'oneshot': True}
+        # names that are the text of a number ('1', '-1', ' 0 ', '00'): not channel names, hence refused (never taken as positions)
+        for i, txt in enumerate(['0', '1', '-1', ' 0 ', '00', '2', '1.0', '+1']):
+            for N, D in ((2, 3), (3, 2)):
+                yield {'N': N, 'D': D, 'keys': [[{'t': 'slice', 'v': [None, None, None]}, {'t': 'name', 'v': txt}]], 'set': i % 2 == 1}
+                yield {'N': N, 'D': D, 'keys': [[{'t': 'ints', 'v': [0]}, {'t': 'list', 'v': [{'t': 'name', 'v': 'ch0'}, {'t': 'name', 'v': txt}]}]], 'set': i % 2 == 0}
         # a one-channel column (1-D) taken first, then events selected from it: the channel metadata stays that of the one channel
         for N in (1, 2, 4):
             for D in (1, 3):
@@ -316,6 +321,8 @@ class Prop(common.PropertyCheck):
                     vals = np.asarray(cur)[key]
                     res = cur[key]
                     if not isinstance(res, FlowCal.io.FCSData):
+                        if np.ndim(res) >= 1:
+                            return {'meta_err': 'events %s selected from the one-channel column %s: the result is a plain %s without channel metadata' % (rk, case['keys'][0], type(res).__name__)}
                         return {'skip': 'plain result'}
                     after = [list(res._channels), list(map(tuple, res._range)), list(res._resolution), list(res._amplification_type)]
                     if len(before[0]) == 1 and after != before:
